@@ -19,6 +19,7 @@ from common import Check
 
 import nfc.clf
 import nfc.dep
+import nfc.llcp
 import nfc.llcp.llc
 import nfc.llcp.pdu
 from sim import air
@@ -73,6 +74,101 @@ def wt_of(rwt):
         if rwt == 4096 / 13.56E6 * 2 ** wt:
             return wt
     return -1
+
+
+class RecMac(object):
+    """stands in for the NFC-DEP layer below an activated LogicalLinkController: records what llc.exchange hands to
+    the MAC layer and answers with a SYMM PDU"""
+
+    def __init__(self):
+        self.sent = []
+
+    def exchange(self, data, timeout):
+        self.sent.append(None if data is None else bytes(data))
+        return bytearray(b'\x00\x00')
+
+
+REPLAY_PATTERN = []      # set by --replay: only this (kinds, sizes) pattern
+
+
+def llcp_patterns(m, rng, quick):
+    """payload sizes (octets) for PDUs pending on 3..6 service access points in the SAME collect round, relative to the
+    negotiated send MIU m: subsets fit into one aggregated frame, the total does not (or just does).  Inside an AGF
+    a UI PDU of p octets costs 2 (length) + 2 (header) + p, an I PDU 2 + 3 + p."""
+    if REPLAY_PATTERN:
+        return list(REPLAY_PATTERN)
+
+    def cost(kind, p):
+        return (4 if kind == 'u' else 5) + p
+    pats = []
+    h = max(1, (m - 14) // 2 - 3)
+    pats.append(('uuu', [10, h, h]))                                   # each of the last two fits alone, not both
+    pats.append(('uiu', [10, h, max(1, h - 1)]))
+    a = max(1, m // 3 - 5)
+    for tot in (m - 1, m, m + 1, m + 2, m + 3):                        # exact totals around the MIU
+        c = tot - 2 * cost('u', a) - 4
+        if 1 <= c <= m:
+            pats.append(('uuu', [a, a, c]))
+    c = m + 1 - cost('u', a) - cost('i', a) - 4
+    if 1 <= c <= m:
+        pats.append(('iuu', [a, a, c]))
+    q = max(1, m // 4 - 4)
+    pats.append(('uuuu', [q, q, q, max(1, m + 2 - 3 * (q + 4) - 4)]))
+    pats.append(('uuiuu', [1, max(1, m // 3), max(1, m // 3), max(1, m // 3), 1]))
+    pats.append(('uuuuuu', [max(1, m // 2), max(1, m // 2 - 6), 1, max(1, m // 3), 1, max(1, m - 3 - 2)]))
+    pats.append(('uiu', [max(1, m - 3 - rng.randrange(0, 5)), max(1, m // 2), 1]))
+    for _ in range(1 if quick else 4):
+        n = rng.randrange(3, 7)
+        kinds = ''.join(rng.choice('uuui') for _ in range(n))
+        if 'i' not in kinds and rng.random() < 0.5:
+            kinds = 'i' + kinds[1:]
+        if kinds.count('i') > 1:
+            kinds = kinds.replace('i', 'u', kinds.count('i') - 1)
+        pats.append((kinds, [max(1, min(m, rng.choice([1, m // 3, m // 2, m - 3 - rng.randrange(0, 6), (m - 20) // 2, m // 4]))) for _ in range(n)]))
+    return [(k, [min(x, m) for x in sz]) for k, sz in pats]
+
+
+def llcp_traffic(llc, kinds, sizes):
+    """queue one PDU per service access point (kinds: u = logical data link socket, i = connection-mode socket brought
+    up by a dispatched CONNECT and accept()), then run collect() / exchange() until nothing is pending; returns the
+    frames handed to the MAC layer.  The sockets are dropped from the SAP table afterwards."""
+    DONTWAIT = nfc.llcp.MSG_DONTWAIT
+    mac = RecMac()
+    llc.mac = mac
+    try:
+        conns = []
+        for i, k in enumerate(kinds):
+            if k == 'i':
+                ls = llc.socket(nfc.llcp.DATA_LINK_CONNECTION)
+                llc.bind(ls, 40 + i)
+                llc.listen(ls, 1)
+                llc.dispatch(nfc.llcp.pdu.Connect(40 + i, 33 + i, 2175, 2))
+                conns.append((i, llc.accept(ls)))
+        while True:                        # the CC PDUs go out first (they are judged as well)
+            p = llc.collect()
+            if p is None:
+                break
+            llc.exchange(p, 0.1)
+        npre = len(mac.sent)
+        for i, k in enumerate(kinds):
+            if k == 'u':
+                s = llc.socket(nfc.llcp.LOGICAL_DATA_LINK)
+                llc.bind(s, 40 + i)
+                llc.sendto(s, sizes[i] * b'\xa5', 16 + i, DONTWAIT)
+        for i, c in conns:
+            llc.send(c, min(sizes[i], c.send_miu) * b'\x5a', DONTWAIT)
+        rounds = 0
+        while rounds < 64:
+            rounds += 1
+            p = llc.collect()
+            if p is None:
+                break
+            llc.exchange(p, 0.1)
+        return mac.sent, npre
+    finally:
+        for addr in range(16, 64):
+            llc.sap[addr] = None
+        llc.mac = None
 
 
 def main():
@@ -181,6 +277,29 @@ def main():
         if o['ini'] != ['ok %d' % ob['probe']] or o['tgt'][:1] != ['ok %d' % oa['probe']]:
             ck.violation('traffic-failed:%s' % ((o['ini'] + o['tgt'] + ['?'])[0].split()[-1] if not o['ini'] or not o['ini'][0].startswith('ok') else 'target'),
                          'an exchange of maximum size LLCP PDUs after activation failed: %s / %s' % (o['ini'], o['tgt']), case)
+        # ... also at the LLCP layer: PDUs pending on several service access points in the same collect round; every frame
+        # handed to the MAC layer has an information field within the MIU the peer announced in this configuration
+        for x, y, xo, nm in ((a, b, oa, 'initiator'), (b, a, ob, 'target')):
+            peer_miu = y.cfg['recv-miu']
+            for kinds, szs in llcp_patterns(x.cfg['send-miu'], rng, quick):
+                try:
+                    frames, npre = llcp_traffic(x, kinds, szs)
+                except Exception as e:  # noqa
+                    ck.violation('llcp-traffic-error:' + type(e).__name__, 'LLCP traffic after activation raised %r' % e,
+                                 dict(case, side=nm, kinds=kinds, sizes=szs))
+                    break
+                ck.count('llcp-traffic')
+                ck.cov['evaluations'] += 1
+                for f in frames:
+                    if f is not None and len(f) - 2 > peer_miu:
+                        ck.violation('llcp-traffic-miu-exceeded:agf=%s' % bool(xo['agf']),
+                                     '%s sent an LLCP frame with an information field of %d octets, the peer announced MIU %d '
+                                     '(PDUs of %s octets pending on %d service access points, kinds %s)'
+                                     % (nm, len(f) - 2, peer_miu, szs, len(szs), kinds),
+                                     dict(case, side=nm, kinds=kinds, sizes=szs, frame_len=len(f)))
+                if sum(1 for f in frames[npre:] if f is not None) == 0:
+                    ck.violation('llcp-traffic-nothing-sent', '%s: nothing was sent although PDUs were pending' % nm,
+                                 dict(case, side=nm, kinds=kinds, sizes=szs))
 
     def run_connect(brty0, dep_i, dep_t, oa, ob, kind):
         """the same activation through ContactlessFrontend.connect(llcp=...) / _llcp_connect: only the options
@@ -284,6 +403,8 @@ def main():
                 dt = {k: v for k, v in c['llcp_b'].items() if k in ('brs', 'lri', 'lrt', 'rwt', 'acm')}
                 run(c['brty0'], di, dt, oa, ob, 'replay', via_connect=True)
             elif 'llc_a' in c:
+                if c.get('kinds'):
+                    REPLAY_PATTERN[:] = [(c['kinds'], list(c['sizes']))]
                 run(c['brty0'], c['dep_i'], c['dep_t'], dict(c['llc_a']), dict(c['llc_b']), 'replay')
         flush()
         ck.finish(level='proof', rule='replay of ' + ck.replay, explanation='replay')
